@@ -364,6 +364,13 @@ Fixpoint dec_g (v : val) : option gvalue :=
 Definition dec_cell (c : val) : option gvalue :=
   match c with VL [_; v] => dec_g v | _ => None end.
 
+(** an element of the variadic options: [0, AvgOf, unit] = an Opt; anything else = not an Opt *)
+Definition dec_optarg (v : val) : option sopt :=
+  match v with
+  | VL [VZ 0; avg; unit] => dec_opt_stat avg unit
+  | _ => None
+  end.
+
 Definition ops_C20 : list opdef := [
   (* size.Of(v): the number, P for a panic *)
   {| op_name := "size.Of";
@@ -481,5 +488,24 @@ Definition ops_C20 : list opdef := [
                | Some t => if supportedb t then VZ (spec_size t) else VBad
                | None => VBad end
            | _, _ => VBad end
+       | _ => VBad end) |}
+;
+  (* size.Stat(v, depth, maxItem, opts...): the variadic options; an option is [0, AvgOf, unit] (an Opt),
+     [1] (an int) or [2] (a *Opt): only the first one counts, and it must be an Opt *)
+  {| op_name := "size.Stat/opts";
+     op_run := fun a => match a with
+       | [v; lab; VZ depth; VZ maxItem; VL opts] =>
+           match dec_ltop v lab with
+           | Some d =>
+               if det_text d depth maxItem
+               then match StatOpts d depth maxItem (map dec_optarg opts) with Some t => vzs t | None => VPanic end
+               else VBad
+           | None => VBad end
+       | _ => VBad end;
+     op_spec := fun_spec (fun a => match a with
+       | [v; lab; VZ depth; VZ maxItem; VL opts] =>
+           match dec_ltop v lab with
+           | Some d => match spec_opts d depth maxItem (map dec_optarg opts) with Some t => vzs t | None => VPanic end
+           | None => VBad end
        | _ => VBad end) |}
 ].
